@@ -93,7 +93,12 @@ fn cases(run: &Run) -> Vec<Case> {
         v.push(Case { law: "Poisson", params: format!("({})", l), regime: if l >= 150.0 { "rate>=150 (PTRS)" } else { "rate>=10 (PTRS)" }, sample: Box::new(move || d.sample()), decl: decl(run, 0, 2, true), cdf: Box::new(move |x| poisson_cdf(l, x)), support: (0.0, inf), degenerate: None });
     }
     // Binomial
-    for &(n, p) in &[(15u64, 0.3), (70, 0.3), (20, 0.5), (15, 0.7), (1, 0.5), (40, 0.01), (70, 0.5), (200, 0.4), (1000, 0.3), (100, 0.8), (1000, 0.97), (10, 0.0), (10, 1.0), (10, 1.0 - 1.1102230246251565e-16), (0, 0.4)] {
+    let mut bin_cases: Vec<(u64, f64)> = vec![(63, 0.5), (64, 0.5), (65, 0.5), (16, 0.5)];
+    if run.thorough() {
+        bin_cases.extend([(8, 0.5), (32, 0.5), (128, 0.5), (256, 0.25), (1024, 0.5)]);
+    }
+    bin_cases.extend_from_slice(&[(15u64, 0.3), (70, 0.3), (20, 0.5), (15, 0.7), (1, 0.5), (40, 0.01), (70, 0.5), (200, 0.4), (1000, 0.3), (100, 0.8), (1000, 0.97), (10, 0.0), (10, 1.0), (10, 1.0 - 1.1102230246251565e-16), (0, 0.4)]);
+    for &(n, p) in &bin_cases {
         let d = Binomial::new(n, p);
         let q = p.min(1.0 - p);
         let regime = if n == 0 || p == 0.0 || (p - 1.0).abs() <= f64::EPSILON { "degenerate" } else if q * n as f64 <= 30.0 { if p > 0.5 { "inversion,p>0.5" } else { "inversion" } } else if p > 0.5 { "BTPE,p>0.5" } else { "BTPE" };
